@@ -4,12 +4,14 @@
    the started names, and for each returns exactly the bytes given, their count and H of them;
    unknown names are absent.  For every FNMAX, pairwise distinct block tags, H with 32-byte
    output, and every footer iteration order. *)
+From MLA Require Import Limit.
 From MLA Require Import Base Stream Blocks Writer Reader RoundTripBlocks RoundTripFooter
   RoundTripReader RoundTripWriter RoundTripRun RoundTripGlue.
 From Coq Require Import ZifyBool ZifyNat ZifyN Permutation.
 Open Scope N_scope.
 
 Section RoundTrip.
+  Context {LIM : Limit}.
   Variable FNMAX : N.
   Variables T_START T_CONTENT T_EOA T_EOF : N.
   Variable H : bytes -> bytes.
@@ -29,7 +31,9 @@ Section RoundTrip.
   Hypothesis Hrun : wrun w_init (ops ++ [OFinalize]) = (sf, rs).
   Hypothesis Hok : Forall (fun r => is_ok r = true) rs.
   Hypothesis Hutf : forallb op_utf8 ops = true.
-  (* u64 positions / u32 footer length (the code fails on the latter; the model does not) *)
+  (* u64 positions / u32 footer length.  Since the model has the bincode limit (fixlimits) Hfoot32 is
+     IMPLIED by Hrun/Hok (RoundTripRun.writer_final_limits: a successful finalize means the footer is
+     <= lim and < 2^32); it is kept as a (now redundant) premise so that the statements do not change *)
   Hypothesis Hlen64 : len (w_out sf) < 2 ^ 64.
   Hypothesis Hfoot32 : len (ser_footer_map (order (w_footer sf))) < 2 ^ 32.
 
@@ -70,7 +74,7 @@ Section RoundTrip.
     { rewrite <- app_assoc, <- Hout. exact HR. }
     assert (Hwf : wf_footer (order (w_footer sf))).
     { apply (final_footer_wf _ _ _ _ _ _ _ _ HI Hl Ho). rewrite Hf. apply Horder. }
-    destruct (ropen_spec S _ _ R HR' Hwf Hfoot32 s0 p0 HR0) as (s' & Hop & HR1).
+    destruct (ropen_spec S _ _ R HR' Hwf Hfoot32 (proj1 (writer_final_limits _ _ _ _ _ _ _ _ _ _ Hrun Hok)) s0 p0 HR0) as (s' & Hop & HR1).
     eexists. split; [exact Hop|]. split; [reflexivity | exists 0; exact HR1].
   Qed.
 
